@@ -624,3 +624,52 @@ def bounded_keystone_aperture(which):
         check('nothing-outside-the-segments', bool((o1[~union] == 0).all()))
         base = rng.standard_normal(x.shape)
         check('out-argument-accumulates', bool(np.allclose(ka.compose_opd(k1, c1, out=base.copy()), base + o1, atol=1e-9)))
+
+
+# ------------------------------------------------------------------------------------------ OPD composition: the per-segment step
+@harness('C18', 'compose_opd/segment-step', variants=[dict(cls=c, nseg=k) for c in ('hex', 'keystone') for k in (1, 2)],
+         fuc=['prysm.segmented.CompositeHexagonalAperture.compose_opd', 'prysm.segmented.CompositeKeystoneAperture.compose_opd',
+              'prysm.polynomials.sum_of_2d_modes'])
+def compose_opd_step(v):
+    """compose_opd is a fold of one step per segment over the accumulated map.  With an ARBITRARY accumulated map handed in through
+    `out`, arbitrary segment windows inside the array, arbitrary local masks, bases and coefficients (any number of modes), one
+    segment adds, on the samples of its window where its mask is set, the modal sum of its own coefficients, and changes nothing
+    else: OPD is confined to its segment, linear in that segment's coefficients, and a unit piston on a mode that is identically 1
+    adds exactly the mask.  (One and two segments are run through the real loop; the n-segment statement is this step repeated.)"""
+    H, W = Int('H', 1), Int('W', 1)
+    K = Int('K', 1)
+    nseg = v['nseg']
+    sg = get('prysm.segmented')
+    cls = sg.CompositeHexagonalAperture if v['cls'] == 'hex' else sg.CompositeKeystoneAperture
+    ap = object.__new__(cls)
+    ap.x = Array('x', (H, W))
+    out0 = Array('out0', (H, W))
+    wins, masks, bases, coefs = [], [], [], []
+    for s in range(nseg):
+        y0, y1, x0, x1 = Int('y0_%d' % s, 0), Int('y1_%d' % s, 0), Int('x0_%d' % s, 0), Int('x1_%d' % s, 0)
+        assume(And(y0 < y1, y1 <= H, x0 < x1, x1 <= W))
+        wins.append((slice(y0, y1), slice(x0, x1)))
+        masks.append(Array('mask%d' % s, (y1 - y0, x1 - x0), 'b'))
+        bases.append(Array('base%d' % s, (K, y1 - y0, x1 - x0)))
+        coefs.append(Array('c%d' % s, (K,)))
+    prev = out0 * 1.0          # compose_opd accumulates into `out` in place: keep the map as it was handed in
+    if v['cls'] == 'hex':
+        ap.windows, ap.local_masks, ap.opd_bases = wins, masks, bases
+        res = ap.compose_opd(coefs, out=out0)
+        segs = list(range(nseg))
+    else:
+        # the keystone class treats the centre segment separately: make it the first of the segments above
+        ap.center_window, ap.center_mask = wins[0], masks[0]
+        ap.segment_windows, ap.segment_masks, ap.opd_bases = wins[1:], masks[1:], bases
+        res = ap.compose_opd(coefs[0], coefs[1:], out=out0)
+        segs = list(range(nseg))
+    i, j = idx(H, 'i'), idx(W, 'j')
+    want = elem(prev, i, j)
+    for s in segs:
+        (sy, sx) = wins[s]
+        inside = And(i >= sy.start, i < sy.stop, j >= sx.start, j < sx.stop)
+        li, lj = ite(inside, i - sy.start, 0), ite(inside, j - sx.start, 0)
+        modal = sigma(K, lambda k, s=s, li=li, lj=lj: elem(bases[s], k, li, lj) * elem(coefs[s], k))
+        want = want + ite(And(inside, elem(masks[s], li, lj)), 1, 0) * modal
+    check('returns-the-accumulated-map', shape_is(res, H, W))
+    check('adds-the-masked-modal-sum-inside-the-window-and-nothing-elsewhere', eq(elem(res, i, j), want))
